@@ -97,7 +97,13 @@ def run(tier, rep):
     nums = list(range(4096))
     allnum = b"".join(_fo(bytes([n >> 4, (n & 0xF) << 4 | rnd.randrange(16)]) + bytes(rnd.randrange(256) for _ in range(68))) for n in nums)
     ndel = 0
-    for raw, msg in _RR(_io.BytesIO(allnum), quitonerror=0):
+    def _guarded(it):
+        try:
+            yield from it
+        except Exception as err:  # pylint: disable=broad-except
+            rep.reject("ForeignException", {"engine": "framer", "what": "all-numbers stream"}, {"exception": type(err).__name__, "detail": str(err)[:200]})
+
+    for raw, msg in _guarded(_RR(_io.BytesIO(allnum), quitonerror=0)):
         ndel += 1
         num_in_slice = (raw[3] << 4) | (raw[4] >> 4)
         rep.case(digest(["allnum", num_in_slice]))
